@@ -25,6 +25,8 @@ FUNCS = {
     "mono": lambda u: float(5.0 + np.sum(u)),
     "const": lambda u: 1.0,
     "neg": lambda u: float(-2.0 - np.sum(np.abs(u - 0.3))),
+    # a smooth step written with numpy scalars: np.exp overflows to inf on one side (harmlessly, the term becomes 0)
+    "step": lambda u: float(np.sum(1.0 / (1.0 + np.exp(-4000.0 * (np.asarray(u, dtype=np.float64) - 0.3))) + 0.1 * (u - 0.05) ** 2)),
 }
 
 
@@ -70,7 +72,9 @@ def snap_solver(s, p):
         b = r.bestTrials[0]
         if hasattr(b.point, "floatVariables"):     # still the placeholder before this solver's first trial
             best = (tuple(np.asarray(b.point.floatVariables).tolist()), b.functionValues[0].value)
-    return dict(log=list(p.log), rec=rec, best=best, cnt=r.numberOfGlobalTrials, acc=r.solutionAccuracy)
+    # numpy's floating-point error handling is process-wide state every objective depends on
+    return dict(log=list(p.log), rec=rec, best=best, cnt=r.numberOfGlobalTrials, acc=r.solutionAccuracy,
+                fperr=tuple(sorted(np.geterr().items())))
 
 
 def snap_solution(sol):
@@ -176,7 +180,30 @@ def solo(spec, ops):
 
 def _solo_job(job):
     spec, ops = job
-    return solo(spec, ops)
+    try:
+        return solo(spec, ops)
+    except BaseException as e:      # the solver running alone, in an interpreter of its own, fails: reported as it is
+        import traceback
+        tb = traceback.extract_tb(e.__traceback__)
+        where = next((f"{fr.filename.split('/')[-1]}:{fr.lineno}" for fr in reversed(tb) if "/iOpt/" in fr.filename), "?")
+        return dict(crash=f"{type(e).__name__}: {e} (raised at {where})")
+
+
+def solo_crashes(tasks, table, res):
+    """drop the tasks whose solo reference could not be computed; each distinct failing solo run is one finding"""
+    keep, seen = [], set()
+    for t in tasks:
+        bad = [sp for sp in t["specs"] if isinstance(table[_key(sp, t["ops"])], dict)]
+        for sp in bad:
+            k = _key(sp, t["ops"])
+            if k not in seen:
+                seen.add(k)
+                res.add_violation(dict(driver="solo", spec=sp, ops=t["ops"], sig={},
+                                       message=f"solver {sp['f']} N={sp['N']} running alone in a fresh interpreter, ops "
+                                               f"{t['ops']}: {table[k]['crash']}"))
+        if not bad:
+            keep.append(t)
+    return keep
 
 
 def _key(spec, ops):
@@ -466,6 +493,9 @@ def run(ctx):
             sp = [dict(f="quad0", N=N, box="B0", r=2.0, eps=0.05, limit=8, share="listener", console=mode),
                   dict(f="neg", N=N, box="L:-1.0:0.25", r=3.0, eps=0.05, limit=8, share="listener", console=mode)]
             tasks += [dict(specs=sp, ops=["c", "i", "S", "r"], first=None)]
+    # objectives whose intermediates overflow inside numpy, with a local refinement by one of the solvers
+    for N in (1, 2):
+        tasks += shared("own", (N, N), ("step", "step"), ["c", "i", "L", "i", "S"], limit=30, eps=0.01)
     # two live solvers of different dimensions, both >= 2
     for dims in ((2, 3), (3, 2), (4, 2)):
         tasks += shared("own", dims, ("mono", "quad0"), ["c", "i", "i", "S", "r"])
@@ -478,6 +508,7 @@ def run(ctx):
     merges = alt = 0
     outcomes = 0
     table = fresh_solos([(sp, t["ops"]) for t in tasks for sp in t["specs"]])
+    tasks = solo_crashes(tasks, table, res)
     for t in tasks:
         t["refs"] = [table[_key(sp, t["ops"])] for sp in t["specs"]]
     n_solo = len(table)
@@ -499,6 +530,7 @@ def run(ctx):
     import itertools
     table = fresh_solos([(sp, t["ops"]) for t in btasks0 for sp in t["specs"]])
     n_solo += len(table)
+    btasks0 = solo_crashes(btasks0, table, res)
     for t in btasks0:
         t["refs"] = [table[_key(sp, t["ops"])] for sp in t["specs"]]
     btasks = []
@@ -537,6 +569,9 @@ def run(ctx):
 
 
 def replay(rec):
+    if rec["driver"] == "solo":
+        out = fresh_solos([(rec["spec"], rec["ops"])])[_key(rec["spec"], rec["ops"])]
+        return [f"solo run: {out['crash']}"] if isinstance(out, dict) else []
     if rec["driver"] == "merge":
         return replay_merge(rec)
     return replay_baton(rec)
